@@ -200,6 +200,8 @@ CHECKS['C08'] = dict(
     jobs=[dict(name='tear', harness='c08_buildlog.cc', units=_C08_UNITS, reach=['tear-none', 'tear-some', 'reloaded', 'appended', 'recompacted', 'restatted'], limits=dict(time=1500),
                quick=dict(defines=['VERIF_SEQS=2', 'VERIF_MAXREC=2'], bounds='2 sequences x 1..2 recorded commands, torn at every byte offset, continuation in {reload, append one of 3 statements, recompact with none/one dead output, restat all/one output}'),
                thorough=dict(defines=['VERIF_SEQS=2', 'VERIF_MAXREC=4'], bounds='2 sequences x 1..4 recorded commands, same tears and continuations', limits=dict(time=3000, max_paths=3000000))),
+          dict(name='recompact_crash', harness='c08_buildlog.cc', units=_C08_UNITS, defines=['MODE_RECOMPACT_CRASH', 'VERIF_MAX_EVENTS=12'], reach=['killed', 'completed', 'done'],
+               bounds='1..5 recorded commands (two outputs recorded twice); a session that recompacts or restats the log and is killed after persistence event 0..12; reload, append, reload'),
           dict(name='version', harness='c08_buildlog.cc', units=_C08_UNITS, defines=['MODE_VERSION'], reach=['discarded', 'read'], bounds='log header version 1..12'),
           dict(name='long', harness='c08_buildlog.cc', units=_C08_UNITS, defines=['MODE_LONG'], reach=['long-loaded'], limits=dict(max_steps=200000000, time=1500),
                quick=dict(defines=['VERIF_ALIGNMENTS=13'], bounds='a 256 KiB + log: one record with a ~262000-byte output name, then three short records (one output recorded twice) that cross the 256 KiB reader refill boundary at 13 alignments, the file ending right after them'),
